@@ -396,9 +396,85 @@ func (g *Gen) recvCase(ok [rcN]bool, module bool, usedPool *[][2]uint64) {
 	}
 }
 
+// recvOddShapes: (a) the destination caller names an ACCOUNT, by the bech32 string of its low 20 bytes: submitters whose
+// address is not 20 bytes long but overlaps those bytes are other accounts; (b) token messengers that only a genesis can
+// contain (shorter or longer than 32 bytes, empty): the sender field is 32 bytes, so it equals none of them and no burn
+// message from such a domain is ever accepted.
+func (g *Gen) recvOddShapes() {
+	enc := func(b []byte) string {
+		s, _ := bech32.ConvertAndEncode(bech32Prefix, b)
+		return s
+	}
+	g.config()
+	for i := range g.acctRaw {
+		g.fund(g.acctRaw[i], mintDenom, "1000000000000")
+	}
+	sp := g.standardGenesis(3, 2)
+	short20, long33 := g.randBytes(20), g.randBytes(33)
+	sp.messengers = append(sp.messengers, fmt.Sprintf("7:%x", short20), "8:", fmt.Sprintf("9:%x", long33), fmt.Sprintf("10:%x", g.randBytes(1)))
+	for _, d := range []int{7, 8, 9, 10} {
+		sp.pairs = append(sp.pairs, fmt.Sprintf("%d:%x:%s", d, token(0), hs(mintDenom)))
+	}
+	g.emit(Op{Kind: "genesis-init", KV: sp.kv()})
+	g.dump()
+	// (a)
+	raw := g.acctRaw[2]
+	caller := pad32(raw)
+	shortCaller := make([]byte, 32)
+	copy(shortCaller[12:], raw[:4])
+	for k, c := range []struct {
+		from   string
+		caller []byte
+	}{
+		{g.acct[2], caller},                                                  // the named account itself: accepted
+		{enc(append(append([]byte{}, raw...), g.randBytes(12)...)), caller}, // a 32-byte account starting with the named bytes
+		{enc(pad32(raw)), caller},                                            // the 32-byte account 0^12 ‖ named bytes
+		{enc(raw[:19]), caller},                                              // one byte short
+		{enc(append([]byte{}, raw[:4]...)), shortCaller},                     // a 4-byte account; the caller field is it followed by zeros
+		{strings.ToUpper(g.acct[2]), caller},                                 // the named account spelled in upper case: a different string
+	} {
+		for _, module := range []bool{false, true} {
+			var msg []byte
+			if module {
+				body := buildBurnBody(0, token(0), pad32(g.acctRaw[1]), big.NewInt(int64(20+k)), g.rand32())
+				msg = buildMessage(0, 1, 4, g.freshNonce(1), messengerAddr(1), types.PaddedModuleAddress, c.caller, body)
+			} else {
+				msg = buildMessage(0, 1, 4, g.freshNonce(1), g.rand32(), g.otherRecipient(), c.caller, g.randBytes(6))
+			}
+			g.tx("ReceiveMessage", g.opReceive(c.from, msg, attOpts{}))
+		}
+	}
+	// (b)
+	for _, c := range []struct {
+		d    uint32
+		addr []byte
+	}{{7, short20}, {8, nil}, {9, long33}, {10, nil}} {
+		senders := [][]byte{g.rand32(), pad32(c.addr), make([]byte, 32)}
+		if len(c.addr) > 32 {
+			senders = append(senders, c.addr[:32], c.addr[1:])
+		}
+		if len(c.addr) > 0 && len(c.addr) < 32 {
+			left := make([]byte, 32)
+			copy(left, c.addr) // the address followed by zeros
+			tail := g.rand32()
+			copy(tail[32-len(c.addr):], c.addr) // any sender ending with it
+			senders = append(senders, left, tail)
+		}
+		for _, sender := range senders {
+			body := buildBurnBody(0, token(0), pad32(g.acctRaw[1]), big.NewInt(31), g.rand32())
+			msg := buildMessage(0, c.d, 4, g.freshNonce(c.d), sender, types.PaddedModuleAddress, make([]byte, 32), body)
+			g.tx("ReceiveMessage", g.opReceive(g.acct[1], msg, attOpts{}))
+		}
+		// and a deposit towards such a domain: its messenger becomes the recipient of the outbound message, which must be 32 bytes
+		ty, kv := g.opDeposit(g.acct[1], "5", false)
+		g.tx(ty, kv.set("dest", fmt.Sprint(c.d)))
+	}
+}
+
 func scnRecvMatrix(g *Gen, budget int, arg string) {
 	var used [][2]uint64
 	first := true
+	g.recvOddShapes()
 	for g.nOps < budget {
 		nAtt := 1 + g.pick(4)
 		t := 1 + g.pick(nAtt)
